@@ -97,7 +97,10 @@ func ResetPostRunIterations(iter *Iterations) (hint string) {
 		return
 	}
 
+	// The command that just ran might not use numeric arguments at all:
+	// drop the value, or the next command to use one would inherit it.
 	iter.active = false
+	iter.times = ""
 
 	return
 }
